@@ -8254,6 +8254,19 @@ impl GraphEngine {
             None
         };
 
+        // No endpoint may be deleted between its validation and the linking of the edges
+        // (same exclusion against delete_node as create_edge; stripes taken in order).
+        let mut stripes: Vec<usize> = edges
+            .iter()
+            .flat_map(|e| [self.node_lock_index(e.from), self.node_lock_index(e.to)])
+            .collect();
+        stripes.sort_unstable();
+        stripes.dedup();
+        let _endpoints: Vec<_> = stripes
+            .iter()
+            .map(|&stripe| self.node_locks[stripe].read())
+            .collect();
+
         // Phase 1: Validate all source/target nodes exist and constraints
         for (idx, edge) in edges.iter().enumerate() {
             if !self.node_exists(edge.from) {
